@@ -134,7 +134,13 @@ InconsistentWorkbooks ==
    RawMk(Shapes[6], [a |-> "ROADM", b |-> "FUSED", c |-> "FUSED", d |-> "ROADM"], <<Row("b", "a", AmpC, AmpA), Row("a", "b", AmpA, AmpN)>>, 2)}
 \* every Service sheet in three layouts: contiguous rows, empty lines between blocks of rows, empty first line
 ServiceWorkbooks == {[w EXCEPT !.blanks.services = g] : w \in ServiceWorkbooks0, g \in {<<>>, <<0, 1, 2>>, <<2, 0, 1>>}}
-Workbooks == ValidWorkbooks \cup InvalidWorkbooks \cup ServiceWorkbooks \cup InconsistentWorkbooks
+\* The Type cell takes exactly "ROADM", "ILA" or "FUSED"; any other string - other spellings of these words included -
+\* counts as not filled (an in-line amplifier site unless the degree says ROADM).  Every assignment of such spellings
+\* on the 3-site line and on the triangle, with Eqpt rows on one site, on all neighbours of a site, on two sites.
+Spellings == {"ROADM", "ila", "Ila", "Roadm", "fused"}
+SpellingWorkbooks == UNION {{Mk(Shapes[s], f, combo, NoSvc) : f \in [SitesOf(Shapes[s]) -> Spellings],
+                                                             combo \in {<<0, 2, FALSE>>, <<1, 4, FALSE>>, <<2, 1, TRUE>>}} : s \in {2, 4}}
+Workbooks == SpellingWorkbooks \cup ValidWorkbooks \cup InvalidWorkbooks \cup ServiceWorkbooks \cup InconsistentWorkbooks
 
 -----------------------------------------------------------------------------
 Init == wb \in Workbooks /\ result = <<>> /\ topo = <<>> /\ pc = "sheets"
